@@ -94,8 +94,11 @@ func TestC15Race(t *testing.T) {
 	open := vstat.OpenClasses("C15")
 	lawFailures := 0
 	reported := map[string]bool{}
-	out := runRaceRounds(*vstat.Seed, rounds, *raceFirst, *raceRawOrigin, rl, "", func(rr *raceRound, st *raceRoundStats, err error, fresh []raceReport) {
+	runRaceRounds(*vstat.Seed, rounds, *raceFirst, *raceRawOrigin, rl, "", func(rr *raceRound, st *raceRoundStats, err error, fresh []raceReport) {
 		rec.Case(rr.sc, st.nontrivial(), st.labels(rr)...)
+		if len(st.syncLost) > 0 {
+			rec.NoteOnce("observation outside the statement of C15 (label OBSERVATION(not-C15):...): in some rounds a target whose stream ended with Sync (no later Reset) shows sync=false at the quiescent end - the refresh read sync=false, the stream called Sync, then the refresh wrote its stale value back through gnmiUpdate (same root cause as the race on Target.sync; an atomic flag does not cure it)")
+		}
 		if err != nil && lawFailures < 3 {
 			lawFailures++
 			class := "counter-law"
@@ -140,7 +143,6 @@ func TestC15Race(t *testing.T) {
 			rec.Note("open finding %s (class %s) was not reported in this run (%d rounds; schedule-dependent)", open[c].ID, c, rounds)
 		}
 	}
-	_ = out
 	completed = true
 }
 
